@@ -53,6 +53,7 @@ type Solver struct {
 	Log       io.Writer // optional query log
 	Second    bool      // cross-check assertion queries on a second solver
 	Disagree  []string
+	BadModels int
 	vars      map[string]int
 }
 
@@ -320,27 +321,70 @@ func (s *Solver) getModel(b *backend) term.Model {
 }
 
 func parseValues(sx string, m term.Model) {
-	// ((|x| #x00) (|y| true) ...)
+	// ((|x| #x00) (y true) (z (_ bv5 8)) ...); names may or may not be bar-quoted
 	i := 0
-	for i < len(sx) {
-		j := strings.IndexByte(sx[i:], '|')
-		if j < 0 {
+	n := len(sx)
+	skipWS := func() {
+		for i < n && (sx[i] == ' ' || sx[i] == '\n' || sx[i] == '\t' || sx[i] == '\r') {
+			i++
+		}
+	}
+	skipWS()
+	if i < n && sx[i] == '(' {
+		i++
+	}
+	for {
+		skipWS()
+		if i >= n || sx[i] != '(' {
 			return
 		}
-		i += j + 1
-		k := strings.IndexByte(sx[i:], '|')
-		if k < 0 {
-			return
+		i++
+		skipWS()
+		var name string
+		if i < n && sx[i] == '|' {
+			k := strings.IndexByte(sx[i+1:], '|')
+			if k < 0 {
+				return
+			}
+			name = sx[i+1 : i+1+k]
+			i += k + 2
+		} else {
+			st := i
+			for i < n && sx[i] != ' ' && sx[i] != ')' && sx[i] != '\n' {
+				i++
+			}
+			name = sx[st:i]
 		}
-		name := sx[i : i+k]
-		i += k + 1
-		// value token up to ')'
-		e := strings.IndexByte(sx[i:], ')')
-		if e < 0 {
-			return
+		skipWS()
+		// value: atom or parenthesised
+		var val string
+		if i < n && sx[i] == '(' {
+			depth := 0
+			st := i
+			for i < n {
+				if sx[i] == '(' {
+					depth++
+				} else if sx[i] == ')' {
+					depth--
+					if depth == 0 {
+						i++
+						break
+					}
+				}
+				i++
+			}
+			val = sx[st:i]
+		} else {
+			st := i
+			for i < n && sx[i] != ')' && sx[i] != ' ' && sx[i] != '\n' {
+				i++
+			}
+			val = sx[st:i]
 		}
-		val := strings.TrimSpace(sx[i : i+e])
-		i += e + 1
+		skipWS()
+		if i < n && sx[i] == ')' {
+			i++
+		}
 		switch {
 		case val == "true":
 			m[name] = 1
@@ -356,7 +400,6 @@ func parseValues(sx string, m term.Model) {
 			f := strings.Fields(val[5:])
 			v, _ := strconv.ParseUint(f[0], 10, 64)
 			m[name] = v
-			// consumed only up to first ')', fine
 		}
 	}
 }
@@ -384,6 +427,40 @@ func (s *Solver) Check(extra *term.Term, wantModel bool, assertion bool) (Result
 			break
 		}
 	}
+	if res == Sat && m != nil {
+		// self-check: the model must satisfy every conjunct (where evaluable)
+		bad := ""
+		for i, t := range s.Stack {
+			if v, ok := term.Eval(t, m); ok && v != 1 {
+				bad = fmt.Sprintf("conjunct %d false under model from %s: %s", i, used, t.String())
+				break
+			}
+		}
+		if bad == "" && extra != nil {
+			if v, ok := term.Eval(extra, m); ok && v != 1 {
+				bad = "extra conjunct false under model from " + used
+			}
+		}
+		if bad != "" {
+			s.BadModels++
+			fmt.Fprintf(os.Stderr, "zsx: solver model rejected: %s\n", bad)
+			// try the remaining back ends for a model that checks out
+			for _, n := range order {
+				if n == used {
+					continue
+				}
+				r2, m2 := s.checkOn(n, extra, true)
+				if r2 == Sat && modelOK(s.Stack, extra, m2) {
+					return Sat, m2
+				}
+				if r2 == Unsat {
+					s.Disagree = append(s.Disagree, fmt.Sprintf("%s=sat(bad model) %s=unsat", used, n))
+					return Unknown, nil
+				}
+			}
+			return Unknown, nil
+		}
+	}
 	if res != Unknown && assertion && s.Second {
 		other := "z3new"
 		if used == "z3new" {
@@ -401,6 +478,20 @@ func (s *Solver) Check(extra *term.Term, wantModel bool, assertion bool) (Result
 		}
 	}
 	return res, m
+}
+
+func modelOK(stack []*term.Term, extra *term.Term, m term.Model) bool {
+	for _, t := range stack {
+		if v, ok := term.Eval(t, m); ok && v != 1 {
+			return false
+		}
+	}
+	if extra != nil {
+		if v, ok := term.Eval(extra, m); ok && v != 1 {
+			return false
+		}
+	}
+	return true
 }
 
 type Stats struct {
